@@ -11,6 +11,7 @@ import (
 	"bytes"
 	"encoding/json"
 	"fmt"
+	"github.com/ajitpratap0/GoSQLX/pkg/security"
 	"os"
 	"os/exec"
 	"path/filepath"
@@ -118,6 +119,7 @@ type fileSpec struct {
 	Content  string
 	Mode     os.FileMode
 	Kind     string
+	Link     bool // the input path is a symbolic link to <Name>.target
 	resolved bool
 }
 
@@ -137,6 +139,10 @@ type scenario struct {
 	Format     string // validate output format
 	Check      bool
 	UsesFiles  bool
+	Security   bool // lint --security
+	TokensOnly bool // parse --tokens: the command only tokenizes
+	DirMode    bool // inputs given as a directory with -r
+	Unstable   bool // stdout contains timings (--stats): not part of the replay log hash
 }
 
 var fileKinds = []struct{ kind, content string }{
@@ -218,6 +224,16 @@ func genScenario(src *tape.Source) *scenario {
 		if src.Intn(3, "c19.indent") == 2 {
 			sc.Args = append(sc.Args, "--indent", strconv.Itoa([]int{4, 0, 8}[src.Intn(3, "c19.indentn")]))
 		}
+		switch src.Intn(8, "c19.fextra") {
+		case 4:
+			sc.Args = append(sc.Args, "--max-line", []string{"20", "40"}[src.Intn(2, "c19.maxline")])
+		case 5:
+			sc.Args = append(sc.Args, "--no-uppercase")
+		case 6:
+			sc.Args = append(sc.Args, "--uppercase=false")
+		case 7:
+			sc.Args = append(sc.Args, "-v")
+		}
 	case 1:
 		sc.Cmd = "lint"
 		sc.Args = []string{"lint"}
@@ -233,6 +249,11 @@ func genScenario(src *tape.Source) *scenario {
 		if src.Intn(3, "c19.maxlen") == 2 {
 			sc.MaxLen = 40
 			sc.Args = append(sc.Args, "--max-length", "40")
+		}
+		if !sc.AutoFix && input < 6 && src.Intn(4, "c19.security") == 3 {
+			// the security scanner's findings fail the run too (file mode only)
+			sc.Security = true
+			sc.Args = append(sc.Args, "--security")
 		}
 	case 2:
 		sc.Cmd = "validate"
@@ -259,11 +280,28 @@ func genScenario(src *tape.Source) *scenario {
 				sc.Args = append(sc.Args, "--output-file", "report.out")
 			}
 		}
+		switch src.Intn(10, "c19.vextra") {
+		case 8:
+			if sc.OutFile == "" { // a report file with timings in it has no reproducible "complete new content"
+				sc.Unstable = true
+				sc.Args = append(sc.Args, "--stats")
+			}
+		case 9:
+			sc.Args = append(sc.Args, "-v")
+		}
 	default:
 		sc.Cmd = "parse"
 		sc.Args = []string{"parse"}
-		if src.Intn(2, "c19.pjson") == 1 {
+		switch src.Intn(8, "c19.pjson") {
+		case 1, 2, 3:
 			sc.Args = append(sc.Args, "-f", "json")
+		case 4:
+			sc.Args = append(sc.Args, "-f", []string{"yaml", "tree", "table"}[src.Intn(3, "c19.pfmt")])
+		case 5:
+			sc.Args = append(sc.Args, []string{"--ast", "--tree"}[src.Intn(2, "c19.pview")])
+		case 6:
+			sc.TokensOnly = true
+			sc.Args = append(sc.Args, "--tokens")
 		}
 		if input < 6 {
 			sc.Files = sc.Files[:1]
@@ -282,6 +320,20 @@ func genScenario(src *tape.Source) *scenario {
 	if sc.OutFile != "" && src.Intn(2, "c19.outpre") == 1 {
 		s := "-- previous output that must not be half-overwritten\nSELECT 'old';\n"
 		sc.OutPre = &s
+	}
+	if input < 6 && (sc.Cmd == "validate" || sc.Cmd == "lint") && src.Intn(6, "c19.dirmode") == 5 {
+		// the inputs are found by walking a directory: every matching file at any
+		// depth counts, nothing else does
+		sc.DirMode = true
+		for i := range sc.Files {
+			if sc.Files[i].Kind == "missing" {
+				continue
+			}
+			sc.Files[i].Name = []string{"d/", "d/sub/", "d/sub/deeper/"}[src.Intn(3, "c19.depth")] + sc.Files[i].Name
+		}
+	}
+	if input < 6 && !sc.DirMode && src.Intn(8, "c19.symlink") == 7 {
+		sc.Files[0].Link = true
 	}
 	switch {
 	case input == 6 && src.Intn(40, "c19.hugestdin") == 39:
@@ -302,9 +354,17 @@ func genScenario(src *tape.Source) *scenario {
 		sc.Args = append(sc.Args, sc.Files[0].Content)
 	default:
 		sc.UsesFiles = true
-		if sc.Cmd == "parse" {
+		switch {
+		case sc.Cmd == "parse":
 			sc.Args = append(sc.Args, sc.Files[0].Name)
-		} else {
+		case sc.DirMode:
+			sc.Args = append(sc.Args, "-r", "d")
+			for _, f := range sc.Files {
+				if f.Kind == "missing" {
+					sc.Args = append(sc.Args, f.Name)
+				}
+			}
+		default:
 			sc.Args = append(sc.Args, names()...)
 		}
 	}
@@ -316,7 +376,11 @@ func (sc *scenario) inputs() []fileSpec { return sc.Files }
 func (sc *scenario) String() string {
 	var fs []string
 	for _, f := range sc.Files {
-		fs = append(fs, fmt.Sprintf("%s(%s,%o)=%q", f.Name, f.Kind, f.Mode, clip(f.Content, 50)))
+		ln := ""
+		if f.Link {
+			ln = ",symlink"
+		}
+		fs = append(fs, fmt.Sprintf("%s(%s,%o%s)=%q", f.Name, f.Kind, f.Mode, ln, clip(f.Content, 50)))
 	}
 	s := "gosqlx " + strings.Join(quoteArgs(sc.Args), " ")
 	if sc.Stdin != nil {
@@ -378,11 +442,27 @@ func (p *P) setup(sc *scenario) (dir string, err error) {
 				continue
 			}
 			fp := filepath.Join(dir, f.Name)
+			if err = os.MkdirAll(filepath.Dir(fp), 0o755); err != nil {
+				return
+			}
+			if f.Link {
+				if err = os.Symlink(filepath.Base(f.Name)+".target", fp); err != nil {
+					return
+				}
+				fp += ".target"
+			}
 			if err = os.WriteFile(fp, []byte(f.Content), f.Mode); err != nil {
 				return
 			}
 			os.Chmod(fp, f.Mode)
 			os.Chtimes(fp, old, old)
+		}
+		if sc.DirMode {
+			// decoys a directory walk must not judge: wrong extension, and a directory named like a match
+			os.WriteFile(filepath.Join(dir, "d", "notes.txt"), []byte("SELECT FROM WHERE"), 0o644)
+			os.MkdirAll(filepath.Join(dir, "d", "dir.sql"), 0o755)
+			os.WriteFile(filepath.Join(dir, "outside.sql"), []byte("SELECT FROM WHERE"), 0o644)
+			os.Chtimes(filepath.Join(dir, "outside.sql"), old, old)
 		}
 	}
 	if sc.OutPre != nil {
@@ -395,18 +475,28 @@ func (p *P) setup(sc *scenario) (dir string, err error) {
 
 func snapshot(dir string) map[string]fileState {
 	m := map[string]fileState{}
-	ents, _ := os.ReadDir(dir)
-	for _, e := range ents {
-		if e.IsDir() {
-			continue
-		}
-		b, err := os.ReadFile(filepath.Join(dir, e.Name()))
+	filepath.Walk(dir, func(path string, li os.FileInfo, err error) error {
 		if err != nil {
-			continue
+			return nil
 		}
-		info, _ := e.Info()
-		m[e.Name()] = fileState{true, string(b), info.Mode().Perm(), info.ModTime()}
-	}
+		rel, _ := filepath.Rel(dir, path)
+		if li.IsDir() {
+			if rel == "home" {
+				return filepath.SkipDir
+			}
+			return nil
+		}
+		info, err := os.Stat(path) // what a reader of the path sees (follows a symbolic link)
+		if err != nil || info.IsDir() {
+			return nil
+		}
+		b, err := os.ReadFile(path)
+		if err != nil {
+			return nil
+		}
+		m[rel] = fileState{true, string(b), info.Mode().Perm(), info.ModTime()}
+		return nil
+	})
 	return m
 }
 
@@ -610,7 +700,10 @@ func (p *P) Run(src *tape.Source, trace bool) *core.Result {
 	if mutating && len(r.Violations) == 0 {
 		p.faultPasses(r, src, sc, base, trace)
 	}
-	r.LogHash = src.Hash() ^ canon.Hash(base.Stdout) ^ uint64(base.Exit)
+	r.LogHash = src.Hash() ^ uint64(base.Exit)
+	if !sc.Unstable {
+		r.LogHash ^= canon.Hash(base.Stdout)
+	}
 	return r
 }
 
@@ -629,11 +722,20 @@ func (p *P) verdictOracles(r *core.Result, sc *scenario, base *outcome) {
 	// ---- V1: exit status 0 <=> the library accepts every non-blank input (and no failing-severity finding)
 	allAccepted, anyBlank := true, false
 	rejected := map[string]bool{}
+	// validate, format and parse refuse to read through symbolic links (documented
+	// policy, docs/SECURITY.md): such an input is a failing input like an
+	// unreadable file - it fails the run, is named by reports and never written.
+	// lint has no such policy in either direction: its verdict is not judged for
+	// a link, only what happens to the files.
+	linkRefused := sc.Cmd != "lint"
 	for _, f := range ins {
-		if f.Kind == "missing" {
+		if f.Kind == "missing" || (f.Link && linkRefused) {
 			allAccepted = false
 			rejected[f.Name] = true
 			continue
+		}
+		if f.Link {
+			anyBlank = true // lint + link: exit status not judged
 		}
 		if blank(f.Content) {
 			anyBlank = true
@@ -650,6 +752,20 @@ func (p *P) verdictOracles(r *core.Result, sc *scenario, base *outcome) {
 	}
 	switch sc.Cmd {
 	case "validate", "parse":
+		if sc.TokensOnly {
+			// --tokens stops after tokenizing: it must succeed for what the library
+			// accepts and fail for what the tokenizer rejects; in between either
+			tokFail := false
+			for _, f := range ins {
+				if f.Kind != "missing" && !blank(f.Content) && gosqlxTokenize(f.Content, "") == nil {
+					tokFail = true
+				}
+			}
+			if !anyBlank && ((allAccepted && base.Exit != 0) || (tokFail && base.Exit == 0)) {
+				r.Fail("verdict", "parse --tokens exit status", fmt.Sprintf("%s: exit status %d, library accepts=%v tokenizer rejects=%v; stderr %q", desc, base.Exit, allAccepted, tokFail, clip(base.Stderr, 200)))
+			}
+			break
+		}
 		if !anyBlank || !allAccepted {
 			if want := allAccepted; (base.Exit == 0) != want {
 				why := "exit status"
@@ -680,6 +796,16 @@ func (p *P) verdictOracles(r *core.Result, sc *scenario, base *outcome) {
 			hasErr, hasWarn, fileErr = hasErr || e, hasWarn || w, fileErr || fe
 		}
 		want := !fileErr && !hasErr && !(sc.FailOnWarn && hasWarn)
+		if len(ins) == 1 && ins[0].Kind == "stdin-over-10MiB" {
+			want = false // over the documented stdin limit: refused as unreadable input, never cut
+		}
+		if sc.Security {
+			for _, f := range ins {
+				if n := len(security.NewScanner().Scan(f.Content)); n > 0 {
+					want = false
+				}
+			}
+		}
 		// after --auto-fix the verdict still refers to the findings of the original text (the command lints first)
 		if !anyBlank && (base.Exit == 0) != want {
 			r.Fail("verdict", "lint exit status", fmt.Sprintf("%s: exit status %d but the library linter reports errors=%v warnings=%v (fail-on-warn=%v); stderr %q", desc, base.Exit, hasErr, hasWarn, sc.FailOnWarn, clip(base.Stderr, 200)))
@@ -699,9 +825,25 @@ func (p *P) verdictOracles(r *core.Result, sc *scenario, base *outcome) {
 		if readOnly && (changed || st.Mode != f.Mode.Perm() || time.Since(st.MTime) < 24*time.Hour) {
 			r.Fail("check-only-never-writes", sc.Cmd+" modified-input", fmt.Sprintf("%s: a check-only command changed %s (content changed=%v mode %o->%o mtime touched=%v)", desc, f.Name, changed, f.Mode.Perm(), st.Mode, time.Since(st.MTime) < 24*time.Hour))
 		}
+		if f.Link {
+			// a command that does not rewrite must not touch the link's target either
+			tg := base.Files[f.Name+".target"]
+			if readOnly && (!tg.Exists || tg.Content != f.Content) {
+				r.Fail("check-only-never-writes", sc.Cmd+" modified-input", fmt.Sprintf("%s: a check-only command changed the target of the symbolic link %s", desc, f.Name))
+			}
+		}
 		// ---- V5: in-place rewriting only when processing of that file succeeded
 		if sc.InPlace && rejected[f.Name] && changed {
 			r.Fail("in-place-only-on-success", "format -i rewrote-failed-file", fmt.Sprintf("%s: %s failed to parse but was rewritten to %q", desc, f.Name, clip(st.Content, 80)))
+		}
+	}
+	if sc.DirMode {
+		// what the walk must not pick up is neither judged (V1 above: the decoys are
+		// invalid SQL) nor ever written
+		for _, decoy := range []string{"d/notes.txt", "outside.sql"} {
+			if st := base.Files[decoy]; !st.Exists || st.Content != "SELECT FROM WHERE" {
+				r.Fail("check-only-never-writes", sc.Cmd+" modified-unselected-file", fmt.Sprintf("%s: %s, which the directory walk does not select, was changed to %q", desc, decoy, clip(st.Content, 60)))
+			}
 		}
 	}
 	// ---- V3: format stdout == format -i content, and --check consistent with both
@@ -809,7 +951,13 @@ func (p *P) independence(r *core.Result, sc *scenario, base *outcome) {
 		c.Files = []fileSpec{f}
 		var args []string
 		for _, a := range sc.Args {
-			if strings.HasSuffix(a, ".sql") && len(a) <= 7 {
+			isName := sc.DirMode && (a == "-r" || a == "d")
+			for _, g := range sc.Files {
+				if a == g.Name {
+					isName = true
+				}
+			}
+			if isName {
 				continue
 			}
 			args = append(args, a)
@@ -900,10 +1048,10 @@ func (p *P) reportOracle(r *core.Result, sc *scenario, data string, rejected map
 	want := map[string]bool{}
 	for _, f := range ins {
 		if rejected[f.Name] {
-			want[f.Name] = true
+			want[filepath.Base(f.Name)] = true
 		}
-		if blank(f.Content) && f.Kind != "missing" {
-			delete(named, f.Name) // blank inputs: either verdict is accepted (as in the exit-status oracle)
+		if blank(f.Content) && !rejected[f.Name] {
+			delete(named, filepath.Base(f.Name)) // blank inputs: either verdict is accepted (as in the exit-status oracle)
 		}
 	}
 	// the CLI cannot see --strict rejections if the option is not wired; that is judged by V1
@@ -1008,6 +1156,9 @@ func (p *P) faultPasses(r *core.Result, src *tape.Source, sc *scenario, base *ou
 		for _, f := range sc.Files {
 			if f.Kind != "missing" {
 				want[f.Name] = pair{f.Content, base.Files[f.Name].Content}
+				if f.Link {
+					want[f.Name+".target"] = pair{f.Content, base.Files[f.Name+".target"].Content}
+				}
 			}
 		}
 	}
